@@ -116,6 +116,10 @@ def structured_inputs(d: int):
                 body = f".if {cond} {{\n{body}}}\n"
             ins.append((f"unbounded-recursion:{cond}:{calls}", org + ".macro m_u() {\n.db 1\n" + body + "}\nm_u()\n"))
     ins.append(("mutual-recursion", org + ".macro m_p() {\n.if k_out {\nm_q()\nm_q()\n}\n}\n.macro m_q() {\nm_p()\n}\n.macro m_p() {\n.if k_out {\nm_q()\nm_q()\n}\n}\nm_p()\n"))
+    ins.append(("struct-with-comments", org + ".struct st_x {\n" + "; c\n" * d + "}\n"))
+    ins.append(("struct-empty", org + ".struct st_y {\n}\n.struct st_z {\n/* c */\n}\n"))
+    ins.append(("struct-unclosed", org + ".struct st_w {\n; c\n" * min(d, 8)))
+    ins.append(("map-many", ".map identifier=1 bank_range=0x00, 0x3f addr_range=0x8000, 0xffff mask=0x8000\n" * d + "*=0x008000\n.db 1\n"))
     ins.append(("unbalanced-open", org + "{\n" * d + ".db 1\n"))
     ins.append(("unbalanced-close", org + ".db 1\n" + "}\n" * d))
     ins.append(("comment-run", org + "/* a */\n" * d + "; c\n" * d + "nop ; x\n" * d))
